@@ -246,8 +246,6 @@ class Folder:
     def call_function(self, f, args, kwargs):
         self.tick()
         node = f.node
-        if f.is_generator:
-            raise FoldError("generator %s not foldable" % f.qual)
         env = {}
         pos = list(f.posparams)
         if len(args) > len(pos) and not f.vararg:
@@ -272,11 +270,17 @@ class Folder:
                 else:
                     raise FoldRaise("TypeError", "missing arg %s of %s" % (p, f.qual))
         fr = Frame(self, f.module, self.module(f.module.name), local=env, func=f)
+        if f.is_generator:
+            # a closed initialiser consumes the generators it calls completely (dict.update / dict() / list() / for): folded
+            # eagerly into the list of yielded values
+            fr.yields = []
         try:
             fr.exec_body(node.body)
         except _Ret as r:
+            if f.is_generator:
+                return fr.yields
             return r.v
-        return None
+        return fr.yields if f.is_generator else None
 
 
 class Frame:
@@ -476,6 +480,20 @@ class Frame:
 
     def x_Constant(self, e):
         return e.value
+
+    def x_Yield(self, e):
+        ys = getattr(self, "yields", None)
+        if ys is None:
+            raise FoldError("yield outside a folded generator call")
+        ys.append(self.eval(e.value) if e.value is not None else None)
+        return None
+
+    def x_YieldFrom(self, e):
+        ys = getattr(self, "yields", None)
+        if ys is None:
+            raise FoldError("yield from outside a folded generator call")
+        ys.extend(list(self.iterate(self.eval(e.value))))
+        return None
 
     def x_Name(self, e):
         return self.load(e.id)
